@@ -325,6 +325,8 @@ package fiber
 //@   ensures last-parameter-compares-nothing: len(result.segs) > 0 && result.segs[len(result.segs)-1].IsParam ==> result.segs[len(result.segs)-1].ComparePart == ""
 //@   ensures adjacent-parameters-share-compare-part: forall(k, 0, len(result.segs) - 1, result.segs[k].IsParam && result.segs[k+1].IsParam ==> result.segs[k].ComparePart == result.segs[k+1].ComparePart)
 //@   ensures leading-slash-literal: len(pattern) > 0 && pattern[0] == '/' ==> len(result.segs) > 0 && !result.segs[0].IsParam && result.segs[0].Const[0] == '/'
+// C01: the first literal - the text buildTree takes the bucket key from - is the unescaped text of a prefix of the pattern
+//@   ensures [C01 C03] leading-literal-text: len(pattern) > 0 && pattern[0] == '/' ==> leadingLiteralOf(result.segs, pattern)
 // the matcher's precondition for the parser VALUE that registration stores in the route (pcount is keyed on the slice value)
 //@   ensures count-is-the-prefix-count: pcountDef(result.segs) && pcountMonotone(result.segs)
 //@   ensures one-name-per-parameter: pcount(result.segs, len(result.segs)) == len(result.params) && len(result.params) == paramCount(pattern)
@@ -363,6 +365,11 @@ package fiber
 //@   loop 3
 //@     invariant app-kept: !held(app.mutex) && app.config.CaseSensitive == old(app.config.CaseSensitive) && app.config.StrictRouting == old(app.config.StrictRouting)
 //@     invariant use-route-kept: route.use && route.Method == "USE"
+// C01: the ONE invariant of a route that dispatch rests on (registeredAs, zz_contracts_verif.go, C01 block), with its
+// witness; the clauses after it (pretty-is-normal-form ... root-flag) are its parts, kept under their own names (root-flag
+// is stronger). addPrefixToRoute establishes the same invariant for the clones of mounted routes. (Stated first: an
+// obligation is assumed once asserted, so a change that breaks a part fails HERE and under the part's own name.)
+//@   atcall (*App).addRoute: [C01] route-as-registered: pathRaw == rooted(old(pathRaw)) && arg2.Path == pathRaw && registeredAs(app, arg2, pathPretty)
 //@   atcall (*App).addRoute: rooted-pattern: pathRaw == rooted(old(pathRaw)) && arg2.Path == pathRaw
 //@   atcall (*App).addRoute: pretty-is-normal-form: normalForm(app.config.CaseSensitive, app.config.StrictRouting, pathRaw, pathPretty)
 //@   atcall (*App).addRoute: parser-of-pretty-path: arg2.routeParser.segs == segsOf(pathPretty, epoch)
@@ -372,6 +379,10 @@ package fiber
 //@   atcall (*App).addRoute: star-flag: arg2.star == (arg2.path == "/*")
 //@   atcall (*App).addRoute: root-flag: arg2.root == (arg2.path == "/")
 //@   atcall (*App).addRoute: use-flag: arg2.use == (arg2.Method == "USE")
+// C01 (index transparency, registration side; state-based, no parse names): the first literal of the stored parser - the
+// text buildTree takes the bucket key from (rhash) - is the unescaped text of a prefix of the NORMAL FORM of the pattern,
+// the text that is also compared with the request's detection path.
+//@   atcall (*App).addRoute: [C01] bucket-key-from-the-normal-form: len(pathPretty) > 0 ==> leadingLiteralOf(arg2.routeParser.segs, pathPretty)
 // C01 (dispatch): the remaining flags and the stack(s) a registration goes to. A mount marker is exactly a registration
 // through a group of ANOTHER app; the handlers and the group are the ones given; an endpoint goes to the stack of its
 // own (configured) method, a Use to the stack of the configured method the loop is at, as a new Route object.
